@@ -333,6 +333,24 @@ MUTANTS = [
     ('C15', 'datetime-drops-microseconds', DBF,
      "    args = utc_struct[:5] + (utc_struct[5] + dt.microsecond / 1000000.0,)",
      "    args = utc_struct[:5] + (utc_struct[5],)"),
+    ('C13', 'abort-keeps-blob-files', BL,
+     "            clean = self.fshelper.getBlobFilename(oid, serial)\n            if os.path.exists(clean):\n                remove_committed(clean)",
+     "            clean = self.fshelper.getBlobFilename(oid, serial)"),
+    ('C13', 'undo-does-not-copy-blob', FS,
+     "                            self._blob_storeblob(h.oid, self._tid, tmp)",
+     "                            os.remove(tmp)"),
+    ('C13', 'append-writes-committed-file', BL,
+     "                if self._p_blob_uncommitted is None:\n                    # Create a new working copy\n                    self._create_uncommitted_file()\n                    result = BlobFile(self._p_blob_uncommitted, mode, self)\n                    if self._p_blob_committed:",
+     "                if self._p_blob_uncommitted is None and self._p_blob_committed and mode == 'a':\n                    os.chmod(self._p_blob_committed, 0o644)\n                    result = BlobFile(self._p_blob_committed, mode, self)\n                elif self._p_blob_uncommitted is None:\n                    # Create a new working copy\n                    self._create_uncommitted_file()\n                    result = BlobFile(self._p_blob_uncommitted, mode, self)\n                    if self._p_blob_committed:"),
+    ('C13', 'pack-keeps-removed-blob-files', FS,
+     "                handle_file(path)\n                assert not os.path.exists(path)",
+     "                pass"),
+    ('C13', 'finish-forgets-nothing', BL,
+     "        \"\"\"Blob cleanup to be called from subclass tpc_finish\n        \"\"\"\n        self.dirty_oids = []",
+     "        \"\"\"Blob cleanup to be called from subclass tpc_finish\n        \"\"\"\n        pass"),
+    ('C13', 'copy-fallback-truncates', BL,
+     "        with open(f1, 'rb') as file1:\n            with open(f2, 'wb') as file2:\n                utils.cp(file1, file2)\n        remove_committed(f1)",
+     "        with open(f1, 'rb') as file1:\n            with open(f2, 'wb') as file2:\n                utils.cp(file1, file2, 5)\n        remove_committed(f1)"),
 ]
 
 
